@@ -588,6 +588,10 @@ def run(ck):
     ck.rule("C16-READFIRST", ".lzma/.lz/auto decoders: what the coding function can read before storing to it is stored by the init function on every path returning LZMA_OK")
     reinit.check_read_first(ck, prog, "C16-READFIRST", files=FILES)
     ck.floor("C16-READFIRST", 12)
+    ck.rule("C16-STALENEXT", "entry points other than code() use a lazily initialised nested decoder only behind a test of "
+                             "coder->sequence")
+    reinit.check_stale_nested(ck, prog, "C16-STALENEXT", files=FILES)
+    ck.floor("C16-STALENEXT", 2)
     ck.floor("C16-ALONE", 9)
     prog_xz = common.program(ck, ("xz",), files=("/coder.c",))
     check_xz_magic(ck, prog, prog_xz)
